@@ -51,6 +51,23 @@ func (c *Ctx) Tombstone(rule, rel, recv, name, sink string) {
 				}
 			case strings.HasSuffix(an.Path(ta.X), ".Obj"):
 				inner = ta
+			default:
+				// one assertion serving both cases: "if t, ok := obj.(Tombstone); ok { obj = t.Obj }; x, ok := obj.(*T)"
+				fromObj, fromInner := false, false
+				for _, s := range cellSources(ta.X) {
+					if s == ssa.Value(obj) {
+						fromObj = true
+					}
+					if strings.HasSuffix(an.Path(s), ".Obj") {
+						fromInner = true
+					}
+				}
+				if fromObj && fromInner {
+					if direct == nil {
+						direct = ta
+					}
+					inner = ta
+				}
 			}
 		}
 	}
@@ -81,10 +98,15 @@ func (c *Ctx) Tombstone(rule, rel, recv, name, sink string) {
 	}
 	f1 := an.Facts{}
 	set(f1, direct, true)
+	if direct == inner {
+		set(f1, tomb, false) // the plain case: the object is not a tombstone
+	}
 	reach := an.Explore(fn, nil, f1, isSink)
 	r.Check(len(reach.Returns()) == 0, rule, key+"/object=>"+sink, c.Pos(fn.Pos()), "a plain delete reaches "+sink, "a delete event carrying the object itself can return without "+sink)
 	f2 := an.Facts{}
-	set(f2, direct, false)
+	if direct != inner {
+		set(f2, direct, false)
+	}
 	set(f2, tomb, true)
 	set(f2, inner, true)
 	reach = an.Explore(fn, nil, f2, isSink)
